@@ -25,10 +25,11 @@ RULE = ("cases = (frame with 2 geometry columns (active one not first), provenan
         "partitioning, operation, box)")
 ASSUMPTIONS = ["pandas operations are decided by C01-C05, C13, C14; here only Dask == pandas",
                "synchronous scheduler (schedules are C18's business)"]
+USE_CONTRACTS = True      # in-situ icontract monitors (vmon/contracts.py)
 DECIDING_COUNTERS = ["ops_checked"]
 
-PROVS = ["from_pandas", "filter", "set_geometry", "pack_partitions", "parquet", "parquet-geometry",
-         "parquet-bounds", "pack_to_parquet"]
+PROVS = ["from_pandas", "filter", "cached-filter", "set_geometry", "pack_partitions", "parquet",
+         "parquet-geometry", "parquet-bounds", "parquet-filter", "pack_to_parquet"]
 
 
 def shards(tier, seed):
@@ -42,11 +43,12 @@ def shards(tier, seed):
 
 
 def gen_case(rng, kind):
-    n = int(rng.choice([2, 5, 9, 16, 30]))
-    els = [gg.transform(gg.rand_element(rng, kind, 4), kind, 1, int(rng.integers(0, 30)),
-                        int(rng.integers(0, 30))) for _ in range(n)]
+    n = int(rng.choice([2, 5, 9, 16, 30, 30]))
+    # x grows with the row number, so that a row filter really shrinks the extent
+    els = [gg.transform(gg.rand_element(rng, kind, 4), kind, 1, 3 * i + int(rng.integers(0, 3)),
+                        int(rng.integers(0, 30))) for i in range(n)]
     ok_ = "line" if kind == "point" else "point"
-    other = [gg.transform(gg.rand_element(rng, ok_, 4), ok_, 1, int(rng.integers(40, 70)),
+    other = [gg.transform(gg.rand_element(rng, ok_, 4), ok_, 1, int(rng.integers(140, 170)),
                           int(rng.integers(0, 30))) for _ in range(n)]
     for _ in range(int(rng.integers(0, 3))):
         els[int(rng.integers(n))] = None
@@ -63,12 +65,12 @@ def gen_case(rng, kind):
     spec["geometry"] = "shape"
     boxes = []
     for _ in range(3):
-        xs = np.sort(rng.integers(-2, 36, 2))
+        xs = np.sort(rng.integers(-2, 3 * n + 8, 2))
         ys = np.sort(rng.integers(-2, 36, 2))
         boxes.append([float(xs[0]), float(ys[0]), float(xs[1]) + 0.5, float(ys[1]) + 0.5])
-    boxes.append([-5.0, -5.0, 100.0, 100.0])                    # every partition fully covered
+    boxes.append([-5.0, -5.0, 130.0, 100.0])                    # every partition fully covered
     return {"spec": spec, "kind": kind, "prov": PROVS[int(rng.integers(len(PROVS)))],
-            "npartitions": int(rng.choice([1, 2, 3, 4, 8])), "boxes": boxes,
+            "npartitions": int(rng.choice([1, 2, 3, 4, 8, 12])), "boxes": boxes,
             "seed": int(rng.integers(2 ** 31))}
 
 
@@ -113,15 +115,22 @@ def check_case(ctx, case):
             act = "shape"
             if prov == "from_pandas":
                 ddf = base
-            elif prov == "filter":
-                thr = float(df["val"].quantile(0.6))
-                ddf = base[base["val"] >= thr]
+            elif prov in ("filter", "cached-filter"):
+                if prov == "cached-filter":
+                    # populate the per-partition caches of the parent first: a row filter must
+                    # not inherit them
+                    base.partition_sindex
+                    base.geometry.partition_bounds
+                # keep the rows in the middle of the x range: the extent of what remains shrinks
+                thr = float(df["val"].quantile(0.3))
+                thr2 = float(df["val"].quantile(0.8))
+                ddf = base[(base["val"] >= thr) & (base["val"] <= thr2)]
             elif prov == "set_geometry":
                 ddf = base.set_geometry("other")
                 act = "other"
             elif prov == "pack_partitions":
                 ddf = guarded("pack_partitions", lambda: base.pack_partitions(npartitions=npart, p=8))
-            elif prov in ("parquet", "parquet-geometry", "parquet-bounds"):
+            elif prov in ("parquet", "parquet-geometry", "parquet-bounds", "parquet-filter"):
                 path = os.path.join(root, "d.parq")
                 if guarded("to_parquet", lambda: (base.to_parquet(path), 1)[1]) is None:
                     return
@@ -130,6 +139,13 @@ def check_case(ctx, case):
                     act = "other"                         # default: first geometry column
                 elif prov == "parquet-geometry":
                     ddf = guarded("read", lambda: read_parquet_dask(path, geometry="shape"))
+                elif prov == "parquet-filter":
+                    # bounds read from the metadata must not survive a row filter
+                    ddf = guarded("read", lambda: read_parquet_dask(path, geometry="shape"))
+                    if ddf is not None:
+                        thr = float(df["val"].quantile(0.3))
+                        thr2 = float(df["val"].quantile(0.8))
+                        ddf = ddf[(ddf["val"] >= thr) & (ddf["val"] <= thr2)]
                 else:
                     bx = case["boxes"][0]
                     ddf = guarded("read", lambda: read_parquet_dask(path, geometry="shape",
@@ -152,7 +168,7 @@ def check_case(ctx, case):
             twin = GeoDataFrame(by_rid.loc[order].set_axis(pd.Index(idx, name=parts[0].index.name), axis=0)) \
                 if order else df.iloc[:0]
             twin = twin.set_geometry(act) if len(twin) else twin
-            if prov not in ("filter", "parquet-bounds") and sorted(order) != sorted(df["rid"].tolist()):
+            if prov not in ("filter", "cached-filter", "parquet-filter", "parquet-bounds") and sorted(order) != sorted(df["rid"].tolist()):
                 viol("rows", f"dask-vs-pandas:provenance-loses-rows:{prov}", len(df), len(order))
                 return
             if ddf.geometry.name != act:
